@@ -34,9 +34,11 @@ func (mgr *Manager) Heal(heal info.Heal) {
 		mgr.event.HealStart.Emit(e)
 
 		// Get base heal amount
-		hpLost := target.MaxHP() - target.HP()
-		base := heal.HealValue
-		for k, v := range baseHeal {
+		// the amounts are read from the event so that adjustments made by HealStart listeners
+		// (snapshots, formula terms, flat value) take effect
+		hpLost := target.MaxHP() - target.CurrentHP()
+		base := e.HealValue
+		for k, v := range e.BaseHeal {
 			switch k {
 			case model.HealFormula_BY_HEALER_ATK:
 				base += v * source.ATK()
@@ -55,8 +57,8 @@ func (mgr *Manager) Heal(heal info.Heal) {
 		// Apply Incoming Heal Bonus of target
 		healAmount := base * (1 + source.HealBoost()) * (1 + target.GetProperty(prop.HealTaken))
 		overflow := 0.0
-		if healAmount+target.HP() > target.MaxHP() {
-			overflow = healAmount + target.HP() - target.MaxHP()
+		if healAmount+target.CurrentHP() > target.MaxHP() {
+			overflow = healAmount + target.CurrentHP() - target.MaxHP()
 			healAmount -= overflow
 		}
 
